@@ -169,19 +169,26 @@ func run(t *testing.T, sc scenario, plan []fault) (res result, fail *failure, ha
 		conn := []hsms.ConnOption{hsms.WithT3(t3), hsms.WithT5(time.Second), hsms.WithReconnectBackoff(100*time.Millisecond, 1.0)}
 		E := e2s1.New(w, e2s1.Opts{Active: sc.EActive, Equip: true, Device: device, Retry: sc.Retry, T1: t1E, T2: t2E, T4: t4, Conn: conn, OnData: handler("E")})
 		H := e2s1.New(w, e2s1.Opts{Active: !sc.EActive, Equip: false, Device: device, Retry: sc.Retry, T1: t1H, T2: t2H, T4: t4, Conn: conn, OnData: handler("H")})
-		mb := newMbox(w, plan, sc.Dirs == "both", pauseT1, delayT2)
-		mb.t2master = t2E
+		g := make(gate, 1)
+		settle := g.settle
+		advance := func(d time.Duration) {
+			time.Sleep(d)
+			g.settle()
+		}
+		mb := newMbox(w, g, plan, sc.Dirs == "both", pauseT1, delayT2)
+		mb.t2side = [2]time.Duration{t2E, t2H}
 		var socks [2][]*sim.Conn
 		defer func() {
+			mb.shutdown() // first: the relays call synctest.Wait, which Node.Close does too
+			settle()
 			_ = E.Close()
 			_ = H.Close()
 			close(replyQ["E"])
 			close(replyQ["H"])
-			mb.shutdown()
 			for p := w.Net.TakePeer(); p != nil; p = w.Net.TakePeer() {
 				_ = p.Close()
 			}
-			w.Settle()
+			settle()
 		}()
 		if err := E.Open(); err != nil {
 			harness = "open E: " + err.Error()
@@ -212,7 +219,7 @@ func run(t *testing.T, sc scenario, plan []fault) (res result, fail *failure, ha
 			if pp == nil {
 				return
 			}
-			w.Settle()
+			settle()
 			if pp.SawEOF() { // refused: the passive side still holds its previous connection
 				_ = pp.Close()
 				return
@@ -225,7 +232,7 @@ func run(t *testing.T, sc scenario, plan []fault) (res result, fail *failure, ha
 			socks[dEH] = append(socks[dEH], pe)
 			socks[dHE] = append(socks[dHE], ph)
 			mb.attach(pe, ph)
-			w.Settle()
+			settle()
 		}
 		linked := func() bool {
 			return mb.isLive() && E.C.State() == hsms.SelectedState && H.C.State() == hsms.SelectedState
@@ -233,7 +240,7 @@ func run(t *testing.T, sc scenario, plan []fault) (res result, fail *failure, ha
 		for i := 0; i < 50 && !linked(); i++ {
 			manage()
 			if !linked() {
-				w.Advance(stepDur)
+				advance(stepDur)
 			}
 		}
 		if !linked() {
@@ -350,7 +357,7 @@ func run(t *testing.T, sc scenario, plan []fault) (res result, fail *failure, ha
 		}
 		start := w.Now()
 		for w.Now()-start < horizon && !allDone() {
-			w.Advance(stepDur)
+			advance(stepDur)
 			manage()
 		}
 		dead := !allDone()
@@ -358,10 +365,10 @@ func run(t *testing.T, sc scenario, plan []fault) (res result, fail *failure, ha
 		t0 := w.Now()
 		for w.Now()-t0 < relink && !linked() {
 			manage()
-			w.Advance(stepDur)
+			advance(stepDur)
 		}
 		up := linked()
-		w.Advance(200 * time.Millisecond) // trailing traffic (notices, late duplicates)
+		advance(200 * time.Millisecond) // trailing traffic (notices, late duplicates)
 
 		// ---- observations ----
 		trace, maxAtt, failAtt, masterYielded, parseErrs := mb.snapshot()
@@ -476,20 +483,8 @@ func run(t *testing.T, sc scenario, plan []fault) (res result, fail *failure, ha
 					}
 				}
 			}
-			side := dEH
-			if r.Side == "H" {
-				side = dHE
-			}
-			if errors.Is(r.err, secs1.ErrSendFailed) {
-				ok := false
-				for _, fa := range failAtt {
-					if fa[0] == side && fa[1] == sc.Retry+1 {
-						ok = true
-					}
-				}
-				if !ok {
-					bad("gave-up-early", "%s: the send of %s failed with %q but its block was attempted %v times (side,attempts) — RTY+1 = %d", where, r.Tok, r.Err, failAtt, sc.Retry+1)
-				}
+			if errors.Is(r.err, secs1.ErrSendFailed) && res.Gens < 2 {
+				bad("send-failed-link-kept", "%s: the send of %s failed with %q but the link was never re-established", where, r.Tok, r.Err)
 			}
 		}
 		for d, o := range order {
@@ -503,7 +498,9 @@ func run(t *testing.T, sc scenario, plan []fault) (res result, fail *failure, ha
 			}
 		}
 		for _, fa := range failAtt {
-			if fa[1] != sc.Retry+1 {
+			// a side that closes its socket on its own in the middle of a block send has exhausted
+			// its retries: exactly RTY+1 requests to send, no fewer (more is caught above)
+			if fa[1] < sc.Retry+1 {
 				bad("gave-up-early", "%s: side %s dropped the link after %d attempts of a block; RTY+1 = %d", where, dirName(fa[0])[:1], fa[1], sc.Retry+1)
 			}
 		}
@@ -796,6 +793,18 @@ func check(c *vfw.Ctx, t *testing.T, sc scenario, plan []fault) {
 		return
 	}
 	if fail != nil {
+		// policy against false alarms (DESIGN 3.2): a violation is reported only if the same
+		// case fails the same way on every re-run; a flicker is schedule-dependent (E3's
+		// business) and is logged, not reported
+		for i := 0; i < 2; i++ {
+			_, f2, h2, _ := run(t, sc, plan)
+			if h2 != "" || f2 == nil || f2.key != fail.key {
+				c.Add("flaky_histories", 1)
+				c.Outcome("flaky:" + fail.key)
+				c.Set("flaky_example", map[string]any{"case": rc, "key": fail.key, "desc": fail.desc})
+				return
+			}
+		}
 		c.Violate(fail.key, fail.desc+"\nline: "+strings.Join(res.Trace, " | "), rc)
 		c.Outcome("violation:" + fail.key)
 		return
